@@ -763,6 +763,7 @@ void GlobalGraph::setRoot(Graph::NodeId newRoot)
 {
   nodeMustExist_(newRoot, "new root");
   root_ = newRoot;
+  this->topologyHasChanged_();
 }
 
 Graph::NodeId GlobalGraph::getRoot() const
